@@ -54,7 +54,7 @@ GenCfg cfg_of(const Op & op)
 {
   GenCfg c;
   c.cat = (int)op.arg(1, 2); c.level = (int)op.arg(2); c.mode = (int)op.arg(3);
-  c.emin_keV = op.arg(4, -1); c.emax_keV = op.arg(5, -1); c.mdl = (int)op.arg(6);
+  c.emin_keV = op.arg(4, -1); c.emax_keV = op.arg(5, -1); c.mdl = (int)(op.arg(6) % 100); c.debug = op.arg(6) >= 100;
   c.nuc = op.str(0);
   return c;
 }
@@ -358,6 +358,7 @@ GenCfg pick_thread_cfg(Rng & r, i64 & est_quads)
   else if (d < 82) { c.cat = 3; c.nuc = GA_NUC[r.below(4)]; c.level = (int)r.below(2); c.mode = r.chance(0.7) ? 1 : 2; }
   else { c.cat = 2; c.nuc = r.pick(bkg_names()); }
   if (r.chance(0.1)) c.mdl = (int)r.range(1, mdl_presets());
+  if (c.cat != 3 && r.chance(0.06)) c.debug = true; // a client with its traces on: the diagnostic stream is shared by all clients
   return c;
 }
 
@@ -387,7 +388,7 @@ Plan gen_threads(u64 seed, u64 idx, const RunCtx & ctx)
       if (all_ga) { c = GenCfg(); c.cat = 1; c.nuc = GA_NUC[r.below(4)]; c.level = 0; c.mode = (int)r.range(21, 22); q = 0; }
       quads[(size_t)t] += q;
       if (c.mode >= 21 || c.cat == 3) any_ga = true;
-      Op o; o.k = "t_cfg"; o.a = {t, c.cat, c.level, c.mode, c.emin_keV, c.emax_keV, c.mdl}; o.s = {c.nuc};
+      Op o; o.k = "t_cfg"; o.a = {t, c.cat, c.level, c.mode, c.emin_keV, c.emax_keV, c.mdl + (c.debug ? 100 : 0)}; o.s = {c.nuc};
       p.ops.push_back(o);
       Op in; in.k = "t_init"; in.a = {t, (i64)r.below(1000)}; p.ops.push_back(in);
       Op sh; sh.k = "t_shoot"; sh.a = {t, (i64)r.below(1000), r.range(1, ctx.tier == "thorough" ? 8 : 5)}; p.ops.push_back(sh);
